@@ -93,6 +93,18 @@ def readOperand (t : Ty) (s : Bytes) : Option (Operand × Bytes) :=
   else
     (match parseConst (s.length + 1) t s with | some (c, r) => some (.const c, r) | none => none)
 
+/-! ### metadata names and IDs (shared with M-Meta) -/
+
+/-- `!name` (ir/metadata: enc.MetadataName; the empty name has no spelling) -/
+def mdName (name : Bytes) : Bytes :=
+  match Enc.metadataName name with
+  | .ok s => s
+  | .panic => []
+
+def isMdNameChar (c : UInt8) : Bool := Enc.isLetter c || isDigit c || c == 92
+
+def mdID (n : Nat) : Bytes := 33 :: natDec n
+
 /-! ### rows -/
 
 inductive Slot where
@@ -676,6 +688,9 @@ structure Inst where
   args : List Arg
   /-- the continuation lines of a `switch`, `invoke` or `landingpad`; `.none` for every other instruction -/
   ext : Ext := .none
+  /-- the metadata attachments `, !name !N` at the end of the line (ir: `Metadata`), in the order written; only on instructions without continuation
+      lines (a switch / invoke / landingpad prints them after its LAST line) -/
+  md : List (Bytes × Nat) := []
   deriving Inhabited
 
 /-- one instruction / terminator without the leading tab -/
@@ -698,7 +713,7 @@ def readBody (res : Option Ident) (s : Bytes) : Option Inst :=
   | some (k, r, rest) =>
     if !r.hasRes && res.isSome then none          -- `%x = store ...`
     else (match readSlots r.cur0 r.slots rest with
-          | some (as, []) => some ⟨if r.hasRes && res.isNone then some .anon else res, k, as, .none⟩      -- a value without `%x =` is nameless
+          | some (as, []) => some ⟨if r.hasRes && res.isNone then some .anon else res, k, as, .none, []⟩      -- a value without `%x =` is nameless
           | _ => none)
   | none => none
 
@@ -711,6 +726,51 @@ def readInst (s : Bytes) : Option Inst :=
         | none => none)
      | none => none)
   else readBody none s
+
+/-! ### metadata attachments -/
+
+/-- `, !name !N` for every attachment (ir/inst_*.go: `for _, md := range inst.Metadata { fmt.Fprintf(buf, ", %s", md) }`) -/
+def mdString : List (Bytes × Nat) → Bytes
+  | [] => []
+  | (n, k) :: r => sComma ++ mdName n ++ [32] ++ mdID k ++ mdString r
+
+def startsMd (s : Bytes) : Bool := s.take 3 == [44, 32, 33]
+
+/-- the text up to the first `, !` outside a quoted name, and the rest (`!` occurs nowhere else in an instruction) -/
+def splitMd (inq : Bool) : Bytes → Bytes × Bytes
+  | [] => ([], [])
+  | c :: r =>
+    if !inq && startsMd (c :: r) then ([], c :: r)
+    else let (a, b) := splitMd (if c == 34 then !inq else inq) r; (c :: a, b)
+
+/-- the state of the scan after a text without attachments: `some false` when no `, !` occurs outside quotes and the quotes are balanced -/
+def scanMd (inq : Bool) : Bytes → Option Bool
+  | [] => some inq
+  | c :: r => if !inq && startsMd (c :: r) then none else scanMd (if c == 34 then !inq else inq) r
+
+/-- `, !name !N …` up to the end of the line -/
+def readMds : Nat → Bytes → Option (List (Bytes × Nat))
+  | 0, _ => none
+  | _ + 1, [] => some []
+  | f + 1, s =>
+    match s with
+    | 44 :: 32 :: 33 :: r =>
+      let tok := r.takeWhile isMdNameChar
+      if tok.isEmpty || (tok.head?.map isDigit).getD false then none else
+      (match r.dropWhile isMdNameChar with
+       | 32 :: 33 :: r1 =>
+         (match parseUint63 (r1.takeWhile isDigit) with
+          | some k => (readMds f (r1.dropWhile isDigit)).map fun l => (Enc.unescape tok, k) :: l
+          | none => none)
+       | _ => none)
+    | _ => none
+
+/-- one instruction line (without the leading tab): the instruction, then its attachments -/
+def readInstMd (s : Bytes) : Option Inst :=
+  let (body, rest) := splitMd false s
+  match readInst body, readMds (rest.length + 1) rest with
+  | some i, some md => some { i with md := md }
+  | _, _ => none
 
 /-! ### blocks and functions -/
 
@@ -762,7 +822,7 @@ def extLines (useHex : Int → Bool) : Ext → List Bytes
   | .clauses cl cs => (if cl then [sCleanup] else []) ++ cs.map (clauseLine useHex)
 
 /-- the lines of an instruction or terminator: its first line and the continuation lines -/
-def instLines (useHex : Int → Bool) (i : Inst) : List Bytes := (9 :: instString useHex i) :: extLines useHex i.ext
+def instLines (useHex : Int → Bool) (i : Inst) : List Bytes := (9 :: (instString useHex i ++ mdString i.md)) :: extLines useHex i.ext
 
 def blockLines (useHex : Int → Bool) (b : Block) : List Bytes :=
   labelString b.label :: (b.insts.flatMap (instLines useHex)) ++ instLines useHex b.term
@@ -904,7 +964,7 @@ def readBody' : Nat → List Bytes → Option (List Inst × Inst × List Bytes)
   | _ + 1, [] => none
   | f + 1, l :: ls =>
     if !isInstLine l then none
-    else match readInst l.tail with
+    else match readInstMd l.tail with
       | none => none
       | some i0 =>
         match readExt i0.row ls with
@@ -1300,7 +1360,18 @@ def funcRefTy (f : Func) : Ty := .ptr (.func f.ret (TyList.ofList (f.params.map 
 /-- a function definition on its own: the only global is the function itself -/
 def selfEnv (f : Func) : GEnv := [(f.name, funcRefTy f)]
 
-def translate (f : Func) : Option Func := translateIn (selfEnv f) f
+/-- the metadata IDs the attachments of the function refer to -/
+def mdUses (f : Func) : List Nat :=
+  f.blocks.flatMap fun b => (instsOf b).flatMap fun i => i.md.map (·.2)
+
+/-- a function definition on its own defines no metadata: an attachment refers to an undefined ID (asm/metadata.go irMetadataAttachment) -/
+def translate (f : Func) : Option Func := if (mdUses f).isEmpty then translateIn (selfEnv f) f else none
+
+theorem translate_some (f g : Func) (h : translate f = some g) : translateIn (selfEnv f) f = some g ∧ (mdUses f).isEmpty = true := by
+  unfold translate at h
+  by_cases hc : (mdUses f).isEmpty = true
+  · simp only [hc, if_true] at h; exact ⟨h, hc⟩
+  · simp only [hc, Bool.false_eq_true, if_false] at h; cases h
 
 def parse (ls : List Bytes) : Option Func := (readFunc ls).bind translate
 
@@ -1426,7 +1497,15 @@ def wfSemIn (ge : GEnv) (f : Func) : Bool :=
   !hasDupI (defs f) && (uses f).all (fun u => (defs f).contains u) && (labUses f).all (fun u => (blockDefs f).contains u) &&
     LLVMSpec.agreesFrom 0 (slotsOf f) && consistent ge f && typed f && (globUses f).all (fun n => (ge.map (·.1)).contains n) && callsOK ge f && padsOK f
 
-def wfSem (f : Func) : Bool := wfSemIn (selfEnv f) f
+def wfSem (f : Func) : Bool := wfSemIn (selfEnv f) f && (mdUses f).isEmpty
+
+/-- the attachments: non-empty names, IDs within the parser's range, only on instructions without continuation lines, and the text of the instruction
+    itself free of `, !` outside quoted names (decidable; evaluated by the driver on every generated function) -/
+def mdInstOKB (useHex : Int → Bool) (i : Inst) : Bool :=
+  i.md.all (fun a => !a.1.isEmpty && decide (a.2 < 2 ^ 63)) && scanMd false (instString useHex i) == some false &&
+    (i.md.isEmpty || (match i.ext with | .none => true | _ => false))
+
+def mdWF (useHex : Int → Bool) (f : Func) : Bool := f.blocks.all fun b => (instsOf b).all (mdInstOKB useHex)
 
 def wfIn (ge : GEnv) (f : Func) : Bool := wfSyn f && wfSemIn ge f
 def wf (f : Func) : Bool := wfSyn f && wfSem f
